@@ -43,12 +43,36 @@ def gen_script(rng, maxf, maxops):
     return "|".join(",".join(f) if f else "y" for f in fibers)
 
 
+STALL_FUNCS = ["fiber_manager_set_and_wait", "fiber_manager_wait_in_mpsc_queue", "fiber_manager_wait_in_mpmc_queue",
+               "fiber_sleep", "fiber_mark_completed", "fiber_manager_wake_from_mpsc_queue", "fiber_manager_switch_to",
+               "fiber_manager_clear_or_wait", "fiber_join", "fiber_manager_do_maintenance"]
+
+
 def gen(rng, tier):
     cases = []
     for _ in range(n_cases(tier, 300, 4000)):
         k = rng.choice([1, 2, 2, 3, 3, 4])
         cases.append({"args": [k, gen_script(rng, 5 if tier == "quick" else 7, 3 if tier == "quick" else 5)],
                       "env": sched_env(rng, budget=600000)})
+    # directed schedules: park a kernel thread inside one of the suspension / wake-up windows
+    # (right after a write in that function) and let the others run - "every placement of a
+    # wake-up or steal relative to the suspending context switch"
+    for _ in range(n_cases(tier, 300, 3000)):
+        k = rng.choice([2, 3, 3, 4])
+        env = {"VR_SEED": rng.randrange(1, 1 << 30), "VR_SCHED": "rand", "VR_SWITCH": rng.choice([2, 3]),
+               "VR_BUDGET": 600000, "VR_STALL_FUNC": rng.choice(STALL_FUNCS),
+               "VR_STALL_LEN": rng.choice([60, 200, 600]), "VR_STALL_DEN": rng.choice([1, 2, 3])}
+        cases.append({"args": [k, gen_script(rng, 6, 2)], "env": env})
+    # join windows: several short-lived fibers and a few long yielders on 3-4 kernel threads, the
+    # finishing fiber parked between its detach_state exchange and its context switch, so the
+    # joiner polls the mailbox repeatedly and can be stolen between two polls
+    for _ in range(n_cases(tier, 1500, 12000)):
+        short = ["y"] * rng.randrange(2, 5)
+        long_ = [",".join(["y"] * rng.randrange(5, 10)) for _ in range(rng.randrange(2, 4))]
+        env = {"VR_SEED": rng.randrange(1, 1 << 30), "VR_SCHED": "rand", "VR_SWITCH": 2, "VR_BUDGET": 600000,
+               "VR_STALL_FUNC": rng.choice(["fiber_mark_completed", "fiber_mark_completed", "fiber_manager_set_and_wait"]),
+               "VR_STALL_LEN": rng.choice([200, 300, 600]), "VR_STALL_DEN": rng.choice([1, 2])}
+        cases.append({"args": [rng.choice([3, 4]), "|".join(short + long_)], "env": env})
     return cases
 
 
